@@ -122,7 +122,12 @@ def check_dispatch(db, fn, out, mon, enabled_by_class=None):
         else:
             hook_threw = [x for x in ev if x.endswith(':throw') and not x.startswith('rule')]
             src = 'rule' if 'rule:throw' in ev else (hook_threw[0].split(':')[0] if hook_threw else 'other')
-            if src in ('success', 'failure', 'start', 'unwind'): continue   # a closing hook itself threw: outside the statement
+            if src in ('success', 'failure', 'start', 'unwind'):
+                # a hook itself threw (must_if raises from failure by design): the control has been told success / failure - or, for start, nothing has begun
+                # from the library's side - so no unwind may follow for this attempt
+                if src in ('success', 'failure', 'start') and unw:
+                    probs.append(('H4', 'the %s hook threw and unwind is called as well: %s' % (src, 'two closing events for one start' if src != 'start' else 'an attempt whose start did not complete is unwound'), row))
+                continue
             if closing: probs.append(('H4', 'closing hook %s and an exceptional exit' % closing, row))
             if has_unwind is not None:
                 want = 1 if has_unwind else 0
